@@ -76,9 +76,17 @@ def _gen_reverse(rng, key):
 
 def _gen_tw(rng):
     t, r, s = rng.randint(1, 160), rng.randint(1, 105), rng.randint(1, 36)
+    ocr = [str(t).replace("1", "I").replace("5", "S").replace("0", "O") + "n",
+           str(r).replace("1", "l").replace("0", "O") + "w",
+           str(s).replace("1", "l")]
     return rng.choice([[t, r, s], [str(t), str(r), str(s)], [f"{t}s", r, s],
                        [t, f"{r}e", str(s)], [None, r, s], [t, r, None],
-                       [t, r, 140], ["x", r, s]])
+                       [t, r, 140], ["x", r, s], ocr, ocr])
+
+
+def _tw_is_ocr(tw):
+    return any(isinstance(x, str) and any(c in x for c in "IlSO")
+               for x in tw)
 
 
 def gen_probe_op(rng, trs_pool=None):
@@ -117,8 +125,10 @@ def gen_probe_op(rng, trs_pool=None):
                     rng, ("default_ns", "default_ew", "ocr_scrub",
                           "parse_qq"), hi=2), "kw": kw}
     if r < 0.55:
+        tw_ = _gen_tw(rng)
         return {"p": "tract_set", "text": corpus.gen_block(rng),
-                "tw": _gen_tw(rng), "kw": {}}
+                "tw": tw_, "kw": ({"ocr_scrub": rng.random() < 0.6}
+                                  if _tw_is_ocr(tw_) else {})}
     if r < 0.66:
         return {"p": "trs", "s": rng.choice(trs_pool)}
     if r < 0.68:
@@ -131,7 +141,10 @@ def gen_probe_op(rng, trs_pool=None):
         kw = {}
         if rng.random() < 0.3:
             kw["default_ew"] = rng.choice(("e", "w"))
-        return {"p": "trs_from", "tw": _gen_tw(rng), "kw": kw}
+        tw_ = _gen_tw(rng)
+        if _tw_is_ocr(tw_):
+            kw["ocr_scrub"] = rng.random() < 0.6
+        return {"p": "trs_from", "tw": tw_, "kw": kw}
     if r < 0.80:
         return {"p": "trs_to_dict", "s": rng.choice(trs_pool),
                 "via": rng.choice(("func", "static", "obj", "func_obj"))}
@@ -439,6 +452,15 @@ def gen_plan(rng):
             prior.append({"o": "interrupt", "at": rng.choice(
                 (rng.randint(1, 60), rng.randint(1, 600), rng.randint(1, 2500)))})
             prior.append({"o": "other", "probe": gen_probe_op(rng, trs_pool)})
+    for op_ in probe:
+        if op_["p"] in ("trs_from", "tract_set", "tract_from") \
+                and _tw_is_ocr(op_["tw"]):
+            # the same components with ocr_scrub the other way round, earlier
+            tw2 = copy.deepcopy(op_)
+            tw2["kw"] = dict(tw2.get("kw") or {})
+            tw2["kw"]["ocr_scrub"] = not tw2["kw"].get("ocr_scrub", False)
+            prior.insert(rng.randint(0, len(prior)),
+                         {"o": "other", "probe": tw2})
     for op_ in probe:
         if op_["p"] in ("trslist", "tractlist", "sort_i") and rng.random() < 0.5:
             # the same list operation (same sort key) on other, smaller data
